@@ -21,7 +21,9 @@ S = lambda s: {'s': s}
 KINDS = ['pre', 'post', 'ensure', 'raises', 'reason', 'has']
 MESSAGES = [None, 'configured message']
 EXCS = [None, ['class', scn.cls('ValueError')], ['inst', scn.cls('IndexError'), [S('instance text')]], ['inst', scn.cls('IndexError'), []],
-        ['class', scn.cls('PostContractError')], ['inst', scn.cls('ContractError'), [S('contract instance text')]], ['inst', scn.cls('PreContractError'), []]]
+        ['class', scn.cls('PostContractError')], ['inst', scn.cls('ContractError'), [S('contract instance text')]], ['inst', scn.cls('PreContractError'), []],
+        # strict subclasses of MarkerError: a configured one is not the default of has()
+        ['class', scn.cls('OfflineContractError')], ['inst', scn.cls('OfflineContractError'), [S('marker instance text')]]]
 OUTCOMES = [('false', ['const', {'b': False}]), ('zero', ['const', I(0)]), ('none', ['const', 'N']), ('empty', ['const', S('')]),
             ('text', ['const', S('returned text')])]
 SIGS = [
